@@ -681,6 +681,43 @@ fn mint_conv<E: Elem + Copy>(d: &mut Draw) -> Outcome {
     pass("all-mint-types", true)
 }
 
+
+/// from_value returns exactly the named component everywhere: bit for bit, for -0.0, subnormals, infinities and NaNs too
+macro_rules! from_value_bits {
+    ($fname:ident, $F:ty, $bits:ident) => {
+        fn $fname(d: &mut Draw) -> Outcome {
+            let x: $F = match d.int(0, 6) {
+                0 => -0.0,
+                1 => 0.0,
+                2 => <$F>::from_bits(1),
+                3 => <$F>::INFINITY * if d.bool() { 1.0 } else { -1.0 },
+                4 => <$F>::NAN,
+                _ => <$F>::from_bits(d.$bits()),
+            };
+            d.note("value", &x.to_bits());
+            let same = |c: &[$F]| c.iter().all(|y| y.to_bits() == x.to_bits());
+            let v1 = <Vector1<$F> as Array>::from_value(x);
+            let v2 = <Vector2<$F> as Array>::from_value(x);
+            let v3 = <Vector3<$F> as Array>::from_value(x);
+            let v4 = <Vector4<$F> as Array>::from_value(x);
+            ensure!(same(&[v1.x]) && same(&[v2.x, v2.y]) && same(&[v3.x, v3.y, v3.z]) && same(&[v4.x, v4.y, v4.z, v4.w]), "from_value-vector-bits", "VectorN::from_value({:?}) does not return that value in every component", x);
+            let p1 = <Point1<$F> as Array>::from_value(x);
+            let p2 = <Point2<$F> as Array>::from_value(x);
+            let p3 = <Point3<$F> as Array>::from_value(x);
+            ensure!(same(&[p1.x]) && same(&[p2.x, p2.y]) && same(&[p3.x, p3.y, p3.z]), "from_value-point-bits", "PointN::from_value({:?}) does not return that value in every component: {:?} {:?} {:?}", x, p1, p2, p3);
+            // matrices: the value on the diagonal, +0.0 elsewhere
+            let m2 = <Matrix2<$F> as SquareMatrix>::from_value(x);
+            let m3 = <Matrix3<$F> as SquareMatrix>::from_value(x);
+            let m4 = <Matrix4<$F> as SquareMatrix>::from_value(x);
+            ensure!(same(&[m2.x.x, m2.y.y]) && same(&[m3.x.x, m3.y.y, m3.z.z]) && same(&[m4.x.x, m4.y.y, m4.z.z, m4.w.w]), "from_value-matrix-bits", "MatrixN::from_value({:?}) does not put that value on the diagonal", x);
+            ensure!([m2.x.y, m2.y.x, m3.x.y, m3.z.x, m4.w.x, m4.x.w].iter().all(|y| y.to_bits() == (0.0 as $F).to_bits()), "from_value-matrix-off-diagonal", "MatrixN::from_value({:?}): off-diagonal entries are not +0.0", x);
+            pass(if x == 0.0 { "zero" } else if x.is_nan() || x.is_infinite() { "non-finite" } else { "finite" }, true)
+        }
+    };
+}
+from_value_bits!(from_value_bits_f32, f32, bits32);
+from_value_bits!(from_value_bits_f64, f64, bits64);
+
 fn mint_euler(d: &mut Draw) -> Outcome {
     let (a, b, c) = (d.f64_in(-3.0, 3.0), d.f64_in(-1.5, 1.5), d.f64_in(-3.0, 3.0));
     let e = Euler { x: Rad(a), y: Rad(b), z: Rad(c) };
@@ -748,6 +785,8 @@ pub fn property() -> Property {
     add!("mint-f64", "f64", mint_conv::<f64>, 100, 5000, 48, R);
     add!("mint-char", "char", mint_conv::<char>, 100, 5000, 48, R);
     add!("mint-euler", "f64", mint_euler, 100, 5000, 16, "every generated triple");
+    add!("from_value_bits-f32", "f32", from_value_bits_f32, 200, 10_000, 8, "every value (raw bit patterns, signed zeros, the smallest subnormal, infinities, NaN)");
+    add!("from_value_bits-f64", "f64", from_value_bits_f64, 200, 10_000, 8, "every value (raw bit patterns, signed zeros, the smallest subnormal, infinities, NaN)");
     Property {
         id: "C16",
         title: "Layout, indexing, conversions and swizzles preserve every component in order",
